@@ -78,8 +78,9 @@ class Worker:
         self.stats = []
         self.deaths = []
 
-    def run(self, on_result, stall_timeout=120, stop=None):
+    def run(self, on_result, stall_timeout=300, stop=None):
         a = self.a
+        stalls = 0
         while a < self.b:
             if stop is not None and stop[0]:
                 return
@@ -142,8 +143,15 @@ class Worker:
                 continue
             # death
             run = prog['run'] if prog and prog['run'] >= next_a else next_a
+            if killed[0] and stalls < 2:
+                # wall-clock silence is a property of the machine first (load, a frozen VM):
+                # try the same run again before believing it (CPU spins are caught inside
+                # the worker by its CPU-time watchdog, independent of load)
+                stalls += 1
+                a = run
+                continue
             if killed[0]:
-                cls, detail = 'no-progress', 'no output for %ds (wall-clock backstop)' % stall_timeout
+                cls, detail = 'no-progress', 'no output for %ds, three times at the same run (wall-clock backstop)' % stall_timeout
             else:
                 cls, detail = classify_death(p.returncode, stderr_text, tail)
             on_result(dict(run=run, seed=prog['seed'] if prog else 0, ok=False, death=True, cls=cls, detail=detail, proc_start=a,
